@@ -86,11 +86,11 @@ def check_shape(case, ctx):
         with ctx.lib("jonswap(gamma=1) / pm"):
             a = F.jonswap(freq=f, fp=_param(case, "fp"), hs=_param(case, "hs"), gamma=1.0, alpha=_param(case, "alpha"))
             b = F.pierson_moskowitz(freq=f, fp=_param(case, "fp"), hs=_param(case, "hs"), alpha=_param(case, "alpha"))
-        if not np.allclose(a.values, b.transpose(*a.dims).values, rtol=1e-12, atol=0):
+        if not np.allclose(a.values, b.transpose(*a.dims).values, rtol=1e-12, atol=1e-290):
             raise Violation("jonswap-gamma1", "JONSWAP with gamma=1 differs from Pierson-Moskowitz")
         a0 = F.jonswap(freq=f, fp=_param(case, "fp"), gamma=1.0, alpha=_param(case, "alpha"))
         b0 = F.pierson_moskowitz(freq=f, fp=_param(case, "fp"), alpha=_param(case, "alpha"))
-        if not np.allclose(a0.values, b0.transpose(*a0.dims).values, rtol=1e-12, atol=0):
+        if not np.allclose(a0.values, b0.transpose(*a0.dims).values, rtol=1e-12, atol=1e-290):
             raise Violation("jonswap-gamma1", "unscaled JONSWAP with gamma=1 differs from Pierson-Moskowitz")
     if shape == "tma":
         with ctx.lib("tma(deep) / jonswap"):
@@ -102,7 +102,7 @@ def check_shape(case, ctx):
             kh = R.newton_k(float(fv), 5000.0) * 5000.0
             phi = math.tanh(kh) ** 2 / (1 + 2 * kh / math.sinh(2 * kh)) if kh < 300 else 1.0
             dev = max(dev, abs(1.0 - phi))
-        if dev < 1e-3 and not np.allclose(a.values, b.transpose(*a.dims).values, rtol=3 * dev + 1e-9, atol=0):
+        if dev < 1e-3 and not np.allclose(a.values, b.transpose(*a.dims).values, rtol=3 * dev + 1e-9, atol=1e-290):
             raise Violation("tma-deep", "TMA in 5 km of water differs from JONSWAP by more than the depth factor's distance from one (%g)" % dev)
     ctx.nt(case["arr"])
     ctx.label("shape=" + shape, "params=%s" % ("DataArray" if case["arr"] else "scalar"), "tail=" + case["fg"]["tail"])
@@ -181,7 +181,8 @@ def check_spread(case, ctx):
             e1 = F.jonswap(freq=f, fp=float(f[len(f) // 3]), hs=_param(case, "hs"))
             one = e2.spec.oned()
             mdm, mds, mhs = e2.spec.dm(), e2.spec.dspr(), e2.spec.hs()
-        if not np.allclose(one.transpose(*e1.dims).values, e1.values, rtol=1e-9, atol=0):
+        # absolute floor: densities in the subnormal range (1e-318 at the foot of a JONSWAP) carry only a few significant bits
+        if not np.allclose(one.transpose(*e1.dims).values, e1.values, rtol=1e-9, atol=1e-290):
             raise Violation("oned", "construct_partition(...).spec.oned() differs from the 1D shape")
         mdm, mds, mhs = np.asarray(mdm.values, dtype=float).reshape(-1), np.asarray(mds.values, dtype=float).reshape(-1), np.asarray(mhs.values, dtype=float).reshape(-1)
         for k in range(len(case["dm"])):
